@@ -72,7 +72,7 @@ func judge(spec *propSpec, out *evalOutcome) *disagreement {
 		}
 		return &disagreement{Property: spec.id, Kind: "correspondence",
 			Message: "the real code did not complete the evaluation (" + c.Go.Outcome + ": " + msg + ") where the model evaluates normally",
-			GoProj: c.Go.Outcome, ModProj: out.model.Outcome, Case: c, Model: out.model}
+			GoProj:  c.Go.Outcome, ModProj: out.model.Outcome, Case: c, Model: out.model}
 	}
 	gp, mp := spec.proj(c.Go), spec.proj(out.model)
 	if canon(gp) != canon(mp) {
